@@ -131,3 +131,65 @@ class group_tokens_extend:
     ensures = GT_COMMON_ENS
     raises = []
     serves = ['C02', 'C03', 'C09']
+
+
+# --------------------------------------------------------------------------------- navigation helpers
+
+def make_pred(ex, st):
+    """an arbitrary pure predicate on tokens (for _token_matching): its value on the element at index i of the
+    scanned list is MATCH(funcs, list, i)"""
+    from pyvc.heap import MATCHF, snapshot_id, pred_id
+    me = st.env['self']
+    pid = 1
+
+    def call(ex_, f, args, kw, s):
+        tok = args[0]
+        o = s.objs[tok.oid]
+        if '__pos__' not in o:
+            raise OutsideSubset('predicate on a non-positional token')
+        snap = z3.IntVal(snapshot_id(s, me))
+        return [(s, SBool(MATCHF(z3.IntVal(pid), snap, o['__pos__'])))]
+    return Opaque('P', {'call': call, 'pid': pid})
+
+
+TM_LOOP_FWD = {'inv': ['NOMATCH(funcs, self, start, start + IT0.K)'],
+               'lemmas': ['NOMATCH(funcs, self, start, start + IT0.K + 1) == '
+                          '(NOMATCH(funcs, self, start, start + IT0.K) and not MATCH(funcs, self, start + IT0.K))']}
+
+
+@contract('sqlparse.sql.TokenList._token_matching', case='forward, end=None')
+class token_matching_fwd:
+    """forward scan from `start`: returns (None, None) if no token at an index >= start satisfies the predicate,
+    otherwise (i, tokens[i]) for the FIRST such index; never raises"""
+    exec_class = HeapExec
+    params = {'self': make_group, 'funcs': make_pred, 'start': 'int', 'end': lambda ex, st: None,
+              'reverse': lambda ex, st: False}
+    requires = ['start >= 0']
+    loops = {'0': TM_LOOP_FWD}
+    ensures = [
+        '(result[1] is None and NOMATCH(funcs, self, start, len(self.tokens))) if result[0] is None else '
+        '(start <= result[0] and result[0] < len(self.tokens) and MATCH(funcs, self, result[0]) '
+        'and NOMATCH(funcs, self, start, result[0]) and result[1] is self.tokens[result[0]])',
+        'TXT(self.tokens) == old(TXT(self.tokens))']
+    raises = []
+    serves = ['C03', 'C07', 'C13']
+
+
+@contract('sqlparse.sql.TokenList._token_matching', case='reverse')
+class token_matching_rev:
+    """reverse scan: candidates are the indices start-2, start-3, ..., 0 (token_prev passes idx+1, i.e. the scan
+    starts at idx-1); returns the LAST index below start-1 whose token satisfies the predicate"""
+    exec_class = HeapExec
+    params = {'self': make_group, 'funcs': make_pred, 'start': 'int', 'end': lambda ex, st: None,
+              'reverse': lambda ex, st: True}
+    requires = ['start >= 0', 'start - 2 < len(self.tokens)']
+    loops = {'0': {'inv': ['NOMATCH(funcs, self, start - 1 - IT0.K, start - 1)'],
+                   'lemmas': ['NOMATCH(funcs, self, start - 2 - IT0.K, start - 1) == '
+                              '(NOMATCH(funcs, self, start - 1 - IT0.K, start - 1) and '
+                              'not MATCH(funcs, self, start - 2 - IT0.K))']}}
+    ensures = [
+        '(result[1] is None and NOMATCH(funcs, self, 0, start - 1)) if result[0] is None else '
+        '(0 <= result[0] and result[0] <= start - 2 and MATCH(funcs, self, result[0]) '
+        'and NOMATCH(funcs, self, result[0] + 1, start - 1) and result[1] is self.tokens[result[0]])']
+    raises = []
+    serves = ['C03', 'C07']
